@@ -24,6 +24,9 @@ fn main() {
         let g = |i: usize, d: u64| av.get(i).and_then(|s| s.parse().ok()).unwrap_or(d);
         return show(extra::concurrent_writers(g(2, 1), g(3, 4) as usize, g(4, 300) as usize));
     }
+    if av.get(1).map(|s| s.as_str()) == Some("fulldisk") {
+        return show(extra::session_on_full_disk());
+    }
     if av.get(1).map(|s| s.as_str()) == Some("long") {
         return show(extra::long_session(av.get(2).and_then(|s| s.parse().ok()).unwrap_or(3000)));
     }
